@@ -144,6 +144,29 @@ def run(P, R, tier):
     R.assume('S4: IEEE comparisons with NaN are false (numba nopython)')
     from rules import common as _common
     _common.no_fastmath(P, R, 'C03.h', ['spatialpandas.spatialindex'])
+    # C03.j: the public wrappers answer with what the tree traversal returns (or with nothing): a shortcut that builds the answer itself
+    # (np.arange(n) for a covering query, a cached array) bypasses the NaN-row filter and the exactly-once bookkeeping of the traversal
+    for wname in ('intersects', 'covers_overlaps'):
+        c_, mem_ = P.lookup(HR_, wname) if (HR_ := P.cls(f'{MOD}.HilbertRtree')) else (None, None)
+        if mem_ is None or mem_[0] != 'func':
+            raise AnalysisError(f'C03.j: HilbertRtree.{wname} not found')
+        w = mem_[1]
+        rets = [s_ for s_ in walk_own(w.node) if isinstance(s_, ast.Return) and s_.value is not None]
+        R.floor('C03.j', f'returns of HilbertRtree.{wname}', len(rets), 1)
+        for s_ in rets:
+            e_ = astq.expand(w, s_.value)
+            deleg = any(isinstance(x, ast.Call) and isinstance(x.func, ast.Attribute) and x.func.attr == wname and 'numba_rtree' in norm(x.func.value) for x in ast.walk(e_))
+            parts = e_.elts if isinstance(e_, ast.Tuple) else [e_]
+            empty = all(isinstance(x, ast.Call) and norm(x.func).split('.')[-1] in ('zeros', 'empty', 'array') and x.args and norm(x.args[0]) in ('0', '[]', '(0,)') for x in parts)
+            R.check(deleg or empty, 'C03.j', w, s_, f'HilbertRtree.{wname} returns the traversal\'s answer (or an empty answer)',
+                    f'`{norm(s_)}` answers without the tree traversal: rows with NaN boxes (missing / empty geometries) are not filtered out and are reported as intersecting / covered',
+                    construct=f'HilbertRtree.{wname} delegates')
+    # C03.k: a query does not write the index object (its answer is allocated per call): otherwise an answer handed out earlier changes
+    # when the next query runs
+    qm = [m_[1] for cn_ in ('_NumbaRtree', 'HilbertRtree') for nm_, m_ in P.cls(f'{MOD}.{cn_}').members.items()
+          if m_[0] == 'func' and nm_ in ('intersects', 'covers_overlaps', '_valid_mask', 'total_bounds', '_traverse', '_leaf_start', '_perform_traversal')]
+    qm += [v_[1] for k_, v_ in P.cls(f'{MOD}._NumbaRtree').members.items() if v_[0] == 'func' and not k_.startswith('__') and v_[1] not in qm]
+    _common.who_mutates(P, R, 'C03.k', qm, note=' (an answer handed out by an earlier query changes when the next query runs)')
     # GeometryArray.sindex (an observation point of this property): built on every row's bounds, in array order, never copied to derived arrays
     from rules import C04 as _C04
     _C04.sindex_writers(P, R, rule='C03.i')
